@@ -59,6 +59,23 @@ def rule_r1(rep, program: Program):
     for pr in an.problems:
         f = m.functions[pr.func]
         r.violate(PROP, f"{pr.func}:{pr.kind}:{norm(pr.node)}", f"{pr.what} [input cell {pr.cell}]", node=pr.node, file=f.file)
+    # log_sum_exp factors out the larger operand: the correction term is log1p_exp(d) with d <= 0, i.e. in (0, log 2].
+    # With d > 0 the term grows like d and is added to the operand it was derived from: val1 + ((val2 - val1) + small)
+    # loses val2's low bits to absorption (absolute error eps*|val1| instead of eps*|result|).
+    seen_arg = False
+    for (caller, callee), obs in an.call_args.items():
+        if caller != "log_sum_exp" or callee != "log1p_exp":
+            continue
+        for cell, text, args in obs:
+            seen_arg = True
+            x = args[0]
+            if x.hi > 0.0:
+                node = next((c for c in ast.walk(m.functions["log_sum_exp"].node) if isinstance(c, ast.Call) and norm(c) == text), m.functions["log_sum_exp"].node)
+                r.violate(PROP, f"log_sum_exp:correction-argument-positive:{text}", f"`{text}` is evaluated with a positive argument (interval {x!r}) [input cell {cell}]: the larger operand is not the one factored out, so the result is formed as small_operand + ((large - small) + correction) and the large operand's low-order bits are absorbed - sums of weights of very different magnitude lose accuracy (and overflow to inf near the ends of the range)", node=node, file=m.functions["log_sum_exp"].file)
+                break
+    r.inst({"log_sum_exp correction arguments observed": sum(len(v) for (c1, c2), v in an.call_args.items() if c1 == "log_sum_exp")})
+    if not seen_arg:
+        raise AnalysisError("log_sum_exp: no call of log1p_exp observed (the accuracy clause has nothing to decide on)")
     # branch reachability (informational): a branch of a stable formula that no input reaches
     dead = []
     for name in list(HELPERS1) + list(HELPERS2):
